@@ -1,8 +1,12 @@
 """C08 — Syntax trees stay structurally consistent under any sequence of edits (DESIGN.md §4 C08).
 
-translate : (LEAN-STAGES, filled by the integrator)
-prove     : (LEAN-STAGES)
-correspond: (LEAN-STAGES)
+translate : structural facts of Expression.set/append/replace/__eq__ (ast) + the `_hash_raw_args` classes (live)
+            -> lean/SqlglotModel/Generated/C08.lean (discharged by `generated_structure_ok`)
+prove     : Properties/C08.lean over the pointer-heap model Model/Tree.lean: invariant `Inv` (links / cache / dict keys)
+            preserved by new/set(all index branches)/append/replace/pop/hash/== and by every admissible history
+correspond: op histories (exhaustive over a 22-op alphabet on a 10-node base tree up to length 2 (quick) / 3 (thorough),
+            random to length 30/45) executed on real Expression objects and on the Lean model; after EVERY op both sides
+            dump (class, parent, arg_key, index, `_hash is None`, args) of EVERY allocated node and must agree exactly
 search    : the property's own oracle on the REAL code
             * `inv_violations(root)`: a re-implementation of the invariant that walks `node.args` itself
               (links / shared / stale-hash / closure), with `fresh_hash` recomputing hashes ignoring every cache
@@ -37,8 +41,23 @@ import sqlglot  # noqa: E402
 from sqlglot import exp  # noqa: E402
 from sqlglot.errors import SqlglotError  # noqa: E402
 
-MODULES: list = []   # LEAN-STAGES: filled by the integrator
-THEOREMS: list = []  # LEAN-STAGES: filled by the integrator
+import ast as _ast
+import itertools as _it
+import json as _json
+import os as _os
+
+from vf.core import REPO as _REPO, HarnessError as _HarnessError, lean_str as _lean_str, lean_list as _lean_list
+
+MODULES = ["Model.Tree", "Proofs.Tree", "Generated.C08", "Properties.C08"]
+_P = "SqlglotModel.Properties.C08."
+THEOREMS = [_P + n for n in (
+    "inv_init", "inv_new", "inv_set", "inv_append", "inv_replace", "inv_pop", "inv_hash", "inv_eq",
+    "inv_reachable", "inv_reachable_from_empty", "no_node_stored_twice", "child_records_its_slot",
+    "uncached_child_uncached_parent", "cached_hash_is_recomputed", "eq_iff_recomputed", "eq_different_class",
+    "freeHash_collision_free", "closure_needed", "generated_structure_ok",
+)]
+
+
 
 Expr = exp.Expr
 
@@ -933,6 +952,10 @@ def gen_op(w: World, rng, opid: int) -> dict:
         a = rng.choice(live_nodes)
         same = [n for n in live_nodes if type(n) is type(a)]
         b = rng.choice(same) if rng.random() < 0.8 else rng.choice(live_nodes)
+        if rng.random() < 0.4 and len(same) <= 40:  # prefer a structurally equal partner (equal trees must compare equal)
+            sa = structure(a)
+            twins = [n for n in same if n is not a and structure(n) == sa]
+            b = rng.choice(twins) if twins else b
         op.update(op="eq", a=nm(a), b=nm(b))
     elif r < 0.47:
         k = _pick_key(rng, t)
@@ -1271,6 +1294,56 @@ CORPUS = [
 ]
 
 
+# exhaustive part: every sequence over a fixed alphabet on one small tree (all five `set(..., index=)` branches, list
+# vs scalar positions, first / middle / last / out-of-range, cache-filling ops in between)
+EXH_START = [{"kind": "build", "spec": ["E", "Paren", {"this": ["E", "Tuple", {"expressions": {"l": [
+    ["col", "a"], ["E", "Paren", {"this": ["num", 1]}], ["str", "s"]]}}]}]}]
+# pre-order names: s0.0 Paren, s0.1 Tuple, s0.2 Column, s0.3 Identifier, s0.4 Paren, s0.5 Literal 1, s0.6 Literal 's'
+_F = {"v": "fresh", "spec": ["num", 9]}
+_L2 = {"v": "list", "items": [["num", 8], ["col", "b"]]}
+
+
+def exh_alphabet():
+    ops = [{"op": "hashroots"}, {"op": "hash", "t": "s0.1"}, {"op": "hash", "t": "s0.4"}, {"op": "eq", "a": "s0.5", "b": "s0.6"}]
+    ops += [{"op": "pop", "t": t} for t in ("s0.1", "s0.2", "s0.4", "s0.5", "s0.6")]
+    ops += [{"op": "replace", "t": "s0.2", "val": _F}, {"op": "replace", "t": "s0.4", "val": _F},
+            {"op": "replace", "t": "s0.4", "val": {"v": "desc", "j": 1}}, {"op": "replace", "t": "s0.6", "val": {"v": "none"}},
+            {"op": "replace", "t": "s0.2", "val": _L2}, {"op": "replace", "t": "s0.5", "val": _F}, {"op": "replace", "t": "s0.1", "val": _F}]
+    for i in range(4):
+        ops.append({"op": "set", "t": "s0.1", "k": "expressions", "val": {"v": "none"}, "index": i})
+        ops.append({"op": "set", "t": "s0.1", "k": "expressions", "val": _F, "index": i})
+    ops += [{"op": "set", "t": "s0.1", "k": "expressions", "val": _F, "index": 0, "overwrite": False},
+            {"op": "set", "t": "s0.1", "k": "expressions", "val": _F, "index": 2, "overwrite": False},
+            {"op": "set", "t": "s0.1", "k": "expressions", "val": _L2, "index": 1},
+            {"op": "set", "t": "s0.1", "k": "expressions", "val": _L2},
+            {"op": "set", "t": "s0.4", "k": "this", "val": _F}, {"op": "set", "t": "s0.4", "k": "this", "val": {"v": "none"}},
+            {"op": "set", "t": "s0.3", "k": "this", "val": {"v": "scalar", "x": "B"}},
+            {"op": "append", "t": "s0.1", "k": "expressions", "val": _F},
+            {"op": "copy", "t": "s0.1"},
+            {"op": "transform", "t": "s0.0", "fun": "lit2paren", "arg": "a", "copy": False},
+            {"op": "replace_children", "t": "s0.1", "fun": "dup"}]
+    return ops
+
+
+def exhaustive(chk: Check, length, deadline):
+    import itertools
+    alpha = exh_alphabet()
+    n = 0
+    complete = True
+    for L in range(1, length + 1):
+        for seq in itertools.product(alpha, repeat=L):
+            if time.time() > deadline or len(chk.violations) >= 3:
+                complete = False
+                break
+            ops = [dict(o, id=i) for i, o in enumerate(seq)]
+            r = run_history(EXH_START, ops)
+            n += 1
+            if r:
+                report_history(chk, EXH_START, ops, r["cls"], t_shrink=2.0)
+    chk.case(("exhaustive", length, n), nontrivial=True)
+    return {"alphabet": len(alpha), "max_length": length, "histories": n, "complete": complete}
+
+
 def try_history(chk: Check, h, tag):
     """run a given history (hint / corpus) through the oracle; unknown op kinds -> skipped"""
     try:
@@ -1290,6 +1363,7 @@ def search(chk: Check, hints: list, budget_s: float) -> None:
     gen = SqlGen(rng)
     for h in CORPUS + list(hints or []):
         try_history(chk, h, "hint")
+    exh = exhaustive(chk, chk.pick(2, 3), t0 + budget_s * chk.pick(0.2, 0.3))
     n_hist = n_ops = found = 0
     t_hist = t0 + budget_s * 0.55
     max_ops = chk.pick(40, 60)
@@ -1309,20 +1383,598 @@ def search(chk: Check, hints: list, budget_s: float) -> None:
         dialects = rng.sample(dialects, 10)
     n_parse = sweep_parse(chk, gen, dialects, t0 + budget_s * 0.70)
     n_rules = sweep_rules(chk, gen, t0 + budget_s)
-    chk.search_info = {"ran": True, "budget_s": budget_s, "histories": n_hist, "ops": n_ops, "violating_histories": found,
+    chk.search_info = {"ran": True, "budget_s": budget_s, "histories": n_hist, "ops": n_ops, "violating_histories": found, "exhaustive": exh,
                        "parse_trees": n_parse, "dialects": len(dialects) + 1, "rule_pipelines": n_rules,
                        "elapsed_s": round(time.time() - t0, 1),
                        "oracle": "after every public op: links/shared/stale-hash/closure over every live tree (own arg walk, hashes recomputed "
                                  "from scratch), == iff same normalised structure; same checker on parse_one output and after every optimizer rule"}
 
 
+
+# ================================================================================================ LEAN STAGES
+# ---- translate: structural facts of the anchored methods (ast) + the raw-hash classes (live) ------------------
+def _method(tree, cls, name):
+    for c in tree.body:
+        if isinstance(c, _ast.ClassDef) and c.name == cls:
+            for f in c.body:
+                if isinstance(f, _ast.FunctionDef) and f.name == name:
+                    return f
+    return None
+
+
+def _is_attr(n, obj, attr):
+    return isinstance(n, _ast.Attribute) and n.attr == attr and isinstance(n.value, _ast.Name) and n.value.id == obj
+
+
+def _has_inval_loop(fn) -> bool:
+    """`node = self; while node and node._hash is not None: node._hash = None; node = node.parent` (first statements)"""
+    if fn is None:
+        return False
+    for st in fn.body:
+        if isinstance(st, _ast.While):
+            t = st.test
+            ok_test = (isinstance(t, _ast.BoolOp) and isinstance(t.op, _ast.And) and len(t.values) == 2
+                       and isinstance(t.values[0], _ast.Name)
+                       and isinstance(t.values[1], _ast.Compare) and _is_attr(t.values[1].left, t.values[0].id, "_hash")
+                       and len(t.values[1].ops) == 1 and isinstance(t.values[1].ops[0], _ast.IsNot)
+                       and isinstance(t.values[1].comparators[0], _ast.Constant) and t.values[1].comparators[0].value is None)
+            if not ok_test:
+                return False
+            v = t.values[0].id
+            clears = any(isinstance(b, _ast.Assign) and _is_attr(b.targets[0], v, "_hash")
+                         and isinstance(b.value, _ast.Constant) and b.value.value is None for b in st.body)
+            climbs = any(isinstance(b, _ast.Assign) and isinstance(b.targets[0], _ast.Name) and b.targets[0].id == v
+                         and _is_attr(b.value, v, "parent") for b in st.body)
+            return clears and climbs and len(st.body) == 2
+    return False
+
+
+def _replace_clears(fn) -> bool:
+    if fn is None:
+        return False
+    got = set()
+    for n in _ast.walk(fn):
+        if isinstance(n, _ast.Assign) and isinstance(n.value, _ast.Constant) and n.value.value is None:
+            for tg in n.targets:
+                if isinstance(tg, _ast.Attribute) and isinstance(tg.value, _ast.Name) and tg.value.id == "self":
+                    got.add(tg.attr)
+    return {"parent", "arg_key", "index"} <= got
+
+
+def _eq_is_hash(fn) -> bool:
+    if fn is None:
+        return False
+    src = _ast.unparse(fn)
+    return "hash(self) == hash(other)" in src and "type(self) is type(other)" in src
+
+
+def translate(chk) -> str:
+    path = _os.path.join(_REPO, "sqlglot", "expressions", "core.py")
+    tree = _ast.parse(open(path, encoding="utf-8").read())
+    facts = {
+        "setInvalidatesUpParents": _has_inval_loop(_method(tree, "Expression", "set")),
+        "appendInvalidatesUpParents": _has_inval_loop(_method(tree, "Expression", "append")),
+        "replaceClearsPointers": _replace_clears(_method(tree, "Expression", "replace")),
+        "eqIsHashEquality": _eq_is_hash(_method(tree, "Expression", "__eq__")),
+    }
+    for k, v in facts.items():
+        if not v:
+            chk.broken.append({"kind": "translator", "what": f"C08 translator: structure changed: {k} no longer recognised in sqlglot/expressions/core.py"})
+    from sqlglot import exp
+    raw = sorted(c.key for c in exp.Expression.__subclasses__() if False)  # placeholder, replaced below
+    raw = sorted({c.key for c in _all_subclasses(exp.Expression) if getattr(c, "_hash_raw_args", False)})
+    chk.cov["raw_hash_classes"] = raw
+    lines = ["-- GENERATED by vf/props/c08.py from sqlglot/expressions/core.py. Do not edit.",
+             "import SqlglotModel.Model.Tree", "namespace SqlglotModel.Generated.C08"]
+    for k, v in facts.items():
+        lines.append(f"def {k} : Bool := {'true' if v else 'false'}")
+    lines.append("/-- classes with `_hash_raw_args = True` -/")
+    lines.append("def rawClasses : List String := " + _lean_list(_lean_str(r) for r in raw))
+    lines.append("end SqlglotModel.Generated.C08")
+    return "\n".join(lines) + "\n"
+
+
+def _all_subclasses(c):
+    out, stack = set(), [c]
+    while stack:
+        x = stack.pop()
+        for s in x.__subclasses__():
+            if s not in out:
+                out.add(s)
+                stack.append(s)
+    return out
+
+
+# ---- the real side of the line protocol -------------------------------------------------------------------------
+def _classes():
+    from sqlglot import exp
+    cl = [exp.And, exp.Or, exp.Not, exp.Paren, exp.Column, exp.Identifier, exp.Literal, exp.Tuple, exp.Coalesce,
+          exp.In, exp.Select, exp.Alias, exp.EQ, exp.Add, exp.Neg]
+    return {c.key: c for c in cl}
+
+
+class RealHeap:
+    """Executes protocol ops on real Expression objects; object registry index == model node id."""
+
+    def __init__(self):
+        self.reg = []
+        self.ids = {}
+        self.cls = _classes()
+
+    def _register(self, o):
+        self.ids[id(o)] = len(self.reg)
+        self.reg.append(o)
+
+    def value(self, v):
+        if v is None:
+            return None
+        if "n" in v:
+            return self.reg[v["n"]]
+        if "l" in v:
+            return [self.item(x) for x in v["l"]]
+        return v["s"]
+
+    def item(self, x):
+        return self.reg[x["n"]] if "n" in x else x["s"]
+
+    def apply(self, op) -> str:
+        from sqlglot.expressions.core import Expr
+        kind = op["op"]
+        try:
+            if kind == "new":
+                if op["id"] != len(self.reg):
+                    raise _HarnessError("new: id out of step with the registry")
+                o = self.cls[op["cls"]]()
+                if bool(o._hash_raw_args) != op["raw"]:
+                    raise _HarnessError("raw flag mismatch")
+                self._register(o)
+                return "ok"
+            if kind == "set":
+                self.reg[op["n"]].set(op["k"], self.value(op["v"]), index=op["idx"], overwrite=op["ow"])
+                return "ok"
+            if kind == "append":
+                self.reg[op["n"]].append(op["k"], self.item(op["it"]))
+                return "ok"
+            if kind == "replace":
+                self.reg[op["n"]].replace(self.value(op["v"]))
+                return "ok"
+            if kind == "pop":
+                self.reg[op["n"]].pop()
+                return "ok"
+            if kind == "hash":
+                hash(self.reg[op["n"]])
+                return "ok"
+            if kind == "eq":
+                return "true" if self.reg[op["a"]] == self.reg[op["b"]] else "false"
+            if kind == "copy":
+                c = self.reg[op["n"]].copy()
+                first = len(self.reg)
+                stack = [c]
+                while stack:  # pre-order, args in dict order, list items in order
+                    o = stack.pop()
+                    self._register(o)
+                    kids = []
+                    for v in o.args.values():
+                        if isinstance(v, Expr):
+                            kids.append(v)
+                        elif type(v) is list:
+                            kids.extend(x for x in v if isinstance(x, Expr))
+                    stack.extend(reversed(kids))
+                return f"copy {first}"
+            raise _HarnessError(f"unknown op {kind}")
+        except _HarnessError:
+            raise
+        except Exception:  # noqa: any Python exception inside the operation
+            return "fail"
+
+    @staticmethod
+    def _scalar(v):
+        if v is None:
+            return "N"
+        if v is True:
+            return "T"
+        if v is False:
+            return "F"
+        if isinstance(v, int):
+            return "i%d" % v
+        if isinstance(v, str):
+            return "'" + v
+        return "?" + type(v).__name__
+
+    def _ref(self, o):
+        i = self.ids.get(id(o))
+        return "#?" if i is None else "#%d" % i
+
+    def dump(self) -> str:
+        from sqlglot.expressions.core import Expr
+        out = []
+        for i, o in enumerate(self.reg):
+            args = []
+            for k, v in o.args.items():
+                if isinstance(v, Expr):
+                    s = self._ref(v)
+                elif type(v) is list:
+                    s = "[" + ",".join(self._ref(x) if isinstance(x, Expr) else self._scalar(x) for x in v) + "]"
+                else:
+                    s = self._scalar(v)
+                args.append(f"{k}={s}")
+            par = "-" if o.parent is None else self._ref(o.parent)[1:]
+            out.append(":".join([str(i), o.key, par, "-" if o.arg_key is None else o.arg_key,
+                                 "-" if o.index is None else str(o.index),
+                                 "hN" if o._hash is None else "hS", ";".join(args)]))
+        return " ".join(out)
+
+    # -- queries used by the generator ---------------------------------------------------------------------------
+    def stored_ids(self):
+        from sqlglot.expressions.core import Expr
+        st = set()
+        for o in self.reg:
+            for v in o.args.values():
+                if isinstance(v, Expr):
+                    st.add(id(v))
+                elif type(v) is list:
+                    st.update(id(x) for x in v if isinstance(x, Expr))
+        return st
+
+    def is_ancestor_or_self(self, a, n) -> bool:
+        """does the subtree below registry node a contain n (following args)?"""
+        from sqlglot.expressions.core import Expr
+        seen, stack = set(), [self.reg[a]]
+        tgt = self.reg[n]
+        while stack:
+            o = stack.pop()
+            if o is tgt:
+                return True
+            if id(o) in seen:
+                continue
+            seen.add(id(o))
+            for v in o.args.values():
+                if isinstance(v, Expr):
+                    stack.append(v)
+                elif type(v) is list:
+                    stack.extend(x for x in v if isinstance(x, Expr))
+        return False
+
+
+# ---- generators --------------------------------------------------------------------------------------------------
+_SCALARS = ["x", "X", "y", "1", "2", "", True, False, None, 7]
+_KEYS_ONE = ["this", "expression", "alias"]
+_KEYS_LIST = ["expressions", "joins"]
+_LEAF = ["identifier", "literal", "column"]
+_INNER = ["and", "or", "not", "paren", "tuple", "coalesce", "in", "select", "alias", "eq", "add", "neg"]
+
+
+def _mk(cls, n=None):
+    return {"op": "new", "id": n, "cls": cls, "raw": cls in ("identifier", "literal")}
+
+
+def _set(n, k, v, idx=None, ow=True):
+    return {"op": "set", "n": n, "k": k, "v": v, "idx": idx, "ow": ow}
+
+
+BASE = [
+    _mk("and", 0), _mk("column", 1), _mk("identifier", 2), _mk("tuple", 3), _mk("literal", 4), _mk("literal", 5),
+    _mk("column", 6), _mk("identifier", 7), _mk("literal", 8), _mk("paren", 9),
+    _set(2, "this", {"s": "x"}), _set(2, "quoted", {"s": False}), _set(1, "this", {"n": 2}), _set(0, "this", {"n": 1}),
+    _set(7, "this", {"s": "y"}), _set(6, "this", {"n": 7}),
+    _set(4, "this", {"s": "1"}), _set(4, "is_string", {"s": False}), _set(5, "this", {"s": "2"}), _set(5, "is_string", {"s": False}),
+    _set(8, "this", {"s": "9"}), _set(8, "is_string", {"s": False}),
+    _set(3, "expressions", {"l": [{"n": 4}, {"n": 5}, {"n": 6}]}), _set(0, "expression", {"n": 3}),
+]
+ALPHABET = [
+    {"op": "hash", "n": 0}, {"op": "hash", "n": 3}, {"op": "eq", "a": 4, "b": 5}, {"op": "eq", "a": 1, "b": 6},
+    _set(2, "this", {"s": "y"}), _set(4, "this", {"s": "2"}),
+    _set(3, "expressions", None, 0), _set(3, "expressions", None, 1), _set(3, "expressions", {"n": 8}, 1, True),
+    _set(3, "expressions", {"n": 8}, 0, False), _set(3, "expressions", {"l": [{"n": 8}]}, 2), _set(3, "expressions", {"n": 8}, 3),
+    {"op": "append", "n": 3, "k": "expressions", "it": {"n": 8}},
+    {"op": "replace", "n": 5, "v": {"n": 8}}, {"op": "pop", "n": 5}, {"op": "pop", "n": 6}, {"op": "pop", "n": 1},
+    {"op": "replace", "n": 1, "v": {"n": 9}}, _set(0, "expression", None), _set(9, "this", {"n": 8}),
+    {"op": "copy", "n": 3}, _set(0, "this", {"n": 8}),
+]
+
+
+def _opkey(op):
+    k = op["op"]
+    if k == "set":
+        v = op["v"]
+        vk = "None" if v is None else ("node" if "n" in v else "list" if "l" in v else "scalar")
+        return f"set({vk}{',idx' if op['idx'] is not None else ''}{',ins' if not op['ow'] else ''})"
+    if k == "replace":
+        v = op["v"]
+        return "replace(" + ("None" if v is None else ("node" if "n" in v else "list" if "l" in v else "scalar")) + ")"
+    return k
+
+
+def random_history(rng, max_len, wild=0.08):
+    """generate ops while executing them on a RealHeap (the next op is chosen from the current real state)"""
+    from sqlglot.expressions.core import Expr
+    real = RealHeap()
+    ops = []
+
+    def emit(op):
+        r = real.apply(op)
+        ops.append(op)
+        return r
+
+    def fresh_leaf():
+        c = rng.choice(_LEAF)
+        n = len(real.reg)
+        emit(_mk(c, n))
+        if c == "column":
+            m = len(real.reg)
+            emit(_mk("identifier", m))
+            emit(_set(m, "this", {"s": rng.choice(["x", "X", "y"])}))
+            emit(_set(n, "this", {"n": m}))
+        elif c == "identifier":
+            emit(_set(n, "this", {"s": rng.choice(["x", "X", "y"])}))
+            if rng.random() < 0.5:
+                emit(_set(n, "quoted", {"s": rng.random() < 0.5}))
+        else:
+            emit(_set(n, "this", {"s": rng.choice(["1", "2", "a", "A"])}))
+            emit(_set(n, "is_string", {"s": rng.random() < 0.5}))
+        return n
+
+    def candidates(target, n_wanted=1, allow_wild=True):
+        """ids of nodes that may be inserted under `target`: unstored and not an ancestor of target"""
+        st = real.stored_ids()
+        out = []
+        for i, o in enumerate(real.reg):
+            if real.is_ancestor_or_self(i, target):
+                continue
+            if id(o) in st:
+                # "wild" (inadmissible) insertion of a still-attached node: the model mirrors the code regardless of the
+                # API precondition; restricted to childless nodes in small heaps so that shared structure stays small
+                leafy = not any(isinstance(v, Expr) or type(v) is list for v in o.args.values())
+                if not (allow_wild and leafy and len(real.reg) < 24 and rng.random() < wild):
+                    continue
+            out.append(i)
+        return out
+
+    def pick_node_value(target):
+        c = candidates(target)
+        if c and rng.random() < 0.6:
+            return rng.choice(c)
+        return fresh_leaf()
+
+    def pick_items(target, maxn=3):
+        items, used = [], set()
+        for _ in range(rng.randint(0, maxn)):
+            if rng.random() < 0.25:
+                items.append({"s": rng.choice(["x", None, False, "Y"])})
+            else:
+                n = pick_node_value(target)
+                if n not in used:
+                    used.add(n)
+                    items.append({"n": n})
+        return items
+
+    # a start tree
+    for _ in range(rng.randint(1, 3)):
+        fresh_leaf()
+    steps = rng.randint(3, max_len)
+    while len(ops) < steps * 3 and steps > 0:
+        steps -= 1
+        nreg = len(real.reg)
+        r = rng.random()
+        tgt = rng.randrange(nreg)
+        o = real.reg[tgt]
+        if r < 0.10 or nreg < 3:
+            n = len(real.reg)
+            emit(_mk(rng.choice(_INNER), n))
+            # give it some children straight away
+            for _ in range(rng.randint(0, 2)):
+                if rng.random() < 0.5:
+                    emit(_set(n, rng.choice(_KEYS_ONE), {"n": pick_node_value(n)}))
+                else:
+                    emit(_set(n, rng.choice(_KEYS_LIST), {"l": pick_items(n)}))
+            res = "ok"
+        elif r < 0.30:
+            k = rng.choice(_KEYS_ONE + _KEYS_LIST + list(o.args.keys()))
+            vr = rng.random()
+            if vr < 0.15:
+                v = None
+            elif vr < 0.35:
+                sc = rng.choice(_SCALARS)
+                v = None if sc is None else {"s": sc}
+            elif vr < 0.75:
+                v = {"n": pick_node_value(tgt)}
+            else:
+                v = {"l": pick_items(tgt)}
+            res = emit(_set(tgt, k, v))
+        elif r < 0.48:
+            lists = [(i, k) for i, x in enumerate(real.reg) for k, v in x.args.items() if type(v) is list]
+            if not lists:
+                continue
+            tgt, k = rng.choice(lists)
+            L = real.reg[tgt].args[k]
+            # following scalar items make `v.index - 1` crash; keep most lists crash-free but not all
+            idx = rng.randint(0, len(L) + (1 if rng.random() < 0.3 else 0))
+            if idx > len(L):
+                idx = len(L)
+            vr = rng.random()
+            if vr < 0.3:
+                v = None
+            elif vr < 0.7:
+                v = {"n": pick_node_value(tgt)}
+            elif vr < 0.8:
+                v = {"s": rng.choice(["x", True])}
+            else:
+                v = {"l": pick_items(tgt)}
+            res = emit(_set(tgt, k, v, idx, rng.random() < 0.6))
+        elif r < 0.58:
+            k = rng.choice(_KEYS_LIST + [kk for kk, vv in o.args.items()])
+            it = {"s": rng.choice(["x", None, 3])} if rng.random() < 0.2 else {"n": pick_node_value(tgt)}
+            res = emit({"op": "append", "n": tgt, "k": k, "it": it})
+        elif r < 0.70:
+            vr = rng.random()
+            if vr < 0.2:
+                v = None
+            elif vr < 0.8:
+                v = {"n": pick_node_value(tgt)}
+                # never replace by the parent's ancestor chain (cycle) — pick_node_value already excludes ancestors of tgt;
+                # the value goes under tgt's PARENT, whose ancestors are tgt's ancestors too
+            elif vr < 0.9 and o.index is not None:
+                v = {"l": pick_items(tgt)}
+            else:
+                v = {"s": "x"}
+            if v is not None and "l" in v and o.index is None and o.parent is not None:
+                continue  # "replace the parent" recursion: not modelled
+            res = emit({"op": "replace", "n": tgt, "v": v})
+        elif r < 0.78:
+            res = emit({"op": "pop", "n": tgt})
+        elif r < 0.90:
+            res = emit({"op": "hash", "n": tgt})
+        elif r < 0.96:
+            res = emit({"op": "eq", "a": tgt, "b": rng.randrange(nreg)})
+        else:
+            if nreg < 40:
+                res = emit({"op": "copy", "n": tgt})
+            else:
+                res = "ok"
+        if res == "fail":
+            break
+    return ops
+
+
+def _run_real(ops):
+    real = RealHeap()
+    outs = []
+    for op in ops:
+        r = real.apply(op)
+        outs.append(r + "|" + ("" if r == "fail" else real.dump()))
+        if r == "fail":
+            break
+    return outs
+
+
+def correspond(chk) -> list:
+    """returns the list of disagreeing histories (as hint replays for the search)"""
+    rng = chk.rng
+    lines, expect, where, hists = [], [], [], []
+
+    def add_history(ops):
+        hi = len(hists)
+        hists.append(ops)
+        lines.append('{"op":"reset"}')
+        expect.append("ok|")
+        where.append((hi, -1))
+        outs = _run_real(ops)
+        for oi, (op, out) in enumerate(zip(ops, outs)):
+            lines.append(_json.dumps(op))
+            expect.append(out)
+            where.append((hi, oi))
+            chk.count("corr-op:" + _opkey(op))
+            chk.count("corr-res:" + out.split("|")[0].split(" ")[0])
+        chk.case(("corr", ops), nontrivial=len(ops) > 3, sample={"ops": ops[:8]} if hi % 701 == 0 else None)
+
+    # (1) exhaustive: every sequence over ALPHABET up to length L from the base tree; prefixes are shared through
+    #     save/restore slots on the model side and replayed on the real side
+    L = chk.pick(2, 3)
+    alpha = ALPHABET
+    base_out = _run_real(BASE)
+    lines.append('{"op":"reset"}'); expect.append("ok|"); where.append((-1, -1))
+    for op, out in zip(BASE, base_out):
+        lines.append(_json.dumps(op)); expect.append(out); where.append((-1, -1))
+    lines.append('{"op":"save","slot":0}'); expect.append("ok|"); where.append((-1, -1))
+    n_exh = 0
+
+    def rec(prefix, depth):
+        nonlocal n_exh
+        for op in alpha:
+            seq = prefix + [op]
+            outs = _run_real(BASE + seq)
+            if len(outs) < len(BASE) + len(seq):
+                continue  # an earlier op of the prefix failed (already compared there)
+            hi = len(hists)
+            hists.append(BASE + seq)
+            lines.append(_json.dumps({"op": "restore", "slot": depth})); expect.append("ok|"); where.append((hi, -1))
+            lines.append(_json.dumps(op)); expect.append(outs[-1]); where.append((hi, len(BASE) + len(seq) - 1))
+            n_exh += 1
+            chk.count("corr-op:" + _opkey(op))
+            if outs[-1].startswith("fail"):
+                chk.count("corr-res:fail")
+                continue
+            if depth + 1 < L:
+                lines.append(_json.dumps({"op": "save", "slot": depth + 1})); expect.append("ok|"); where.append((hi, -1))
+                rec(seq, depth + 1)
+
+    rec([], 0)
+    chk.cov["exhaustive"] = {"alphabet": len(alpha), "max_len": L, "sequences": n_exh, "base_nodes": 10}
+    chk.corr_cases += n_exh
+    # (2) random histories
+    n_random = chk.pick(400, 2000)
+    max_len = chk.pick(30, 45)
+    for _ in range(n_random):
+        add_history(random_history(rng, max_len))
+    chk.corr_cases += n_random
+    got = chk.driver("C08", lines)
+    bad, seen = [], set()
+    for g, e, (hi, oi) in zip(got, expect, where):
+        if g != e and hi not in seen:
+            seen.add(hi)
+            ops = hists[hi] if hi >= 0 else BASE
+            chk.correspondence_broken("Expression op history", {"ops": ops[: oi + 1] if oi >= 0 else ops,
+                                                               "model": g[:400], "impl": e[:400]})
+            bad.append({"ops": ops})
+    return bad
+
+
+def hint_oracle(chk, ops) -> None:
+    """run a model-protocol history on the real code under the property's own oracle (used for histories on which model
+    and implementation disagreed): as long as every inserted node was unattached (the API precondition), every
+    unattached node must be the root of a tree satisfying `inv_violations`."""
+    real = RealHeap()
+    done = []
+    for op in ops:
+        vals = []
+        v = op.get("v") if op["op"] in ("set", "replace") else None
+        if v and "n" in v:
+            vals = [v["n"]]
+        elif v and "l" in v:
+            vals = [x["n"] for x in v["l"] if "n" in x]
+        if op["op"] == "append" and "n" in op["it"]:
+            vals = [op["it"]["n"]]
+        st = real.stored_ids()
+        if any(id(real.reg[x]) in st for x in vals) or len(set(vals)) != len(vals):
+            return  # caller misuse from here on: not the property's business
+        if real.apply(op) == "fail":
+            return
+        done.append(op)
+        st = real.stored_ids()
+        for o in real.reg:
+            if id(o) not in st:
+                vs = inv_violations(o)
+                if vs:
+                    cls, what = first_violation(vs)
+                    chk.report_violation("model-hist:" + ";".join(_opkey(x) for x in done if x["op"] != "new")[-200:] + "|" + cls,
+                                         what, {"kind": "model-history", "ops": done})
+                    return
+
+
 # ------------------------------------------------------------------------------------------ run / replay
 def run(chk: Check) -> None:
-    # LEAN-STAGES (integrator): chk.trusted.append(...); chk.assumptions += [...]
-    # LEAN-STAGES (integrator): chk.write_generated(translate(chk))
-    # LEAN-STAGES (integrator): proved = chk.prove(MODULES, "Properties.C08", THEOREMS)
+    chk.trusted.append("C08: hand-written model Model/Tree.lean of Expression.{__init__ (as cls()+set), _set_parent, set, append, "
+                       "replace, pop, __hash__, __eq__, __deepcopy__ (by result)}; tied by exact per-cell dump correspondence")
+    chk.assumptions += [
+        "API precondition of the theorems (Adm): a node passed to set/append/replace is not currently stored anywhere (fresh, copied or "
+        "popped) and a node being replaced/popped is attached where its own pointers say; list indexes are non-negative",
+        "A-hash: Python's hash is abstracted by uninterpreted mixing functions; `==` is structural equality only up to hash collisions",
+        "theorems are partial-correctness statements (an operation that raises or does not terminate returns no heap)",
+        "transform / replace_children / builders / optimizer rules / the replace-by-own-descendant idiom are NOT in the Lean model: "
+        "they are covered by the invariant checker on the real code (search stage) only",
+    ]
+    chk.write_generated(translate(chk))
+    proved = chk.prove(MODULES, "Properties.C08", THEOREMS)
     hints: list = []
-    # LEAN-STAGES (integrator): hints = correspond(chk)
+    bad = []
+    try:
+        bad = correspond(chk)
+    except HarnessError as e:
+        if proved:
+            raise
+        chk.note(f"model driver unavailable ({e}); continuing with the search on the real code")
+    for b in bad[:20]:
+        hint_oracle(chk, b["ops"])
     budget = chk.pick(25, 300)
     if chk.broken:
         budget *= 2
@@ -1335,6 +1987,11 @@ def replay(path: str) -> int:
     if not r:
         print(json.dumps(rec, indent=1))
         return 1
+    if r.get("kind") == "model-history":
+        chk = Check("C08", "quick", 0)
+        hint_oracle(chk, r["ops"])
+        print("replay:", "VIOLATES: " + chk.violations[0]["what"] if chk.violations else "holds")
+        return 1 if chk.violations else 0
     if "ops" in r:
         res = run_history(r["start"], r["ops"])
         if res:
